@@ -285,6 +285,18 @@ func genC02(seed int64, tier string) *Scenario {
 			sc.Ops = append(sc.Ops, Op{Kind: "deliver"})
 		}
 	}
+	if r.Intn(5) == 0 {
+		// the same document spelled differently from message to message (percent-encoded or not,
+		// separators below the root as %5C or as backslashes): LSP asks servers to be robust against
+		// differing spellings of one URI, and this server's conversion accepts all of these
+		for i := range sc.Ops {
+			switch sc.Ops[i].Kind {
+			case "open", "change", "save", "close":
+				sc.Ops[i].Spell = r.Intn(4)
+			}
+		}
+		sc.Knobs["spellings"] = true
+	}
 	sc.Ops = append(sc.Ops, Op{Kind: "settle"})
 	return sc
 }
